@@ -12,6 +12,14 @@ lc=$(echo "$id" | tr 'A-Z' 'a-z')
 work="$PWD/.work/$lc.$$"
 mkdir -p "$work"
 trap 'rm -rf "$work"' EXIT
+export VERIF_WORK="$work"
+if [ -x "checks/$lc/run.sh" ]; then
+  # the check drives its own builds (several binaries / overlays)
+  "checks/$lc/run.sh" "$work" "$tier" "${@:3}" 2> "$work/stderr.log"
+  rc=$?
+  [ $rc -ge 2 ] && tail -n 60 "$work/stderr.log" >&2 || cat "$work/stderr.log" >&2
+  exit $rc
+fi
 overlay=()
 if [ -x "checks/$lc/overlay.sh" ]; then
   "checks/$lc/overlay.sh" "$work" > "$work/overlay.log" 2>&1 || { cat "$work/overlay.log" >&2; echo "HARNESS-ERROR: overlay generation failed" >&2; exit 2; }
